@@ -1,4 +1,5 @@
 """C18 — invalid arguments are rejected up front and change nothing."""
+import inspect
 import common
 from common import hx
 
@@ -90,6 +91,21 @@ def classify(fn, foreign_ok=False):
         return "exn " + name if name in ("ValidationError", "ValueError", "TypeError") or "@" in name else "ok"
 
 
+def kwform(method, argvals):
+    """The same call with every argument passed by keyword — or None when the tree under test does not accept that form
+    (the binding is tried against the callable as it is, wrappers included: `HexaryTrie.set` is wrapped by a `*args`-only
+    decorator on the unchanged tree, so `set(key=..., value=...)` is a binding error there and is not a refusal to judge)."""
+    try:
+        names = list(inspect.signature(method).parameters)
+        if len(names) < len(argvals):
+            return None
+        kwargs = dict(zip(names, argvals))
+        inspect.signature(method, follow_wrapped=False).bind(**kwargs)
+    except (TypeError, ValueError):
+        return None
+    return lambda: method(**kwargs)
+
+
 def run_case(case):
     res = common.CaseResult()
     rng = common.mk_rng(case["seed"], "c18")
@@ -97,9 +113,16 @@ def run_case(case):
     refusals = 0
     writes = 0
 
-    def bad(ep, ctx, args, fn, want, state_fn=None):
-        """perform a call that must be refused; compare class with the model; check that nothing changed"""
+    def bad(ep, ctx, args, fn, want, state_fn=None, kw=None):
+        """perform a call that must be refused; compare class with the model; check that nothing changed.
+        kw = (callable, argument values): the call is ALSO made with every argument passed by keyword, when the tree under
+        test accepts that form at all (seeded change C18m-keyword-arguments-bypass-validation)"""
         nonlocal refusals
+        if kw is not None and want != "TypeError":
+            f2 = kwform(*kw)
+            if f2 is not None:
+                res.tags.add("keyword-form:" + ep)
+                bad(ep, ctx, args, f2, want, state_fn)
         before = state_fn() if state_fn else None
         out = classify(fn, foreign_ok=ep.startswith("fog."))
         res.emit("val.check %s %d %s" % (ep, ctx, " ".join(tok(a) for a in args)), out)
@@ -139,21 +162,21 @@ def run_case(case):
                 tg, b = rng.choice(BAD_BYTES)
                 which = rng.randrange(12)
                 if which == 0:
-                    bad("hx.get", 0, [b], lambda: t.get(b), "ValidationError", state)
+                    bad("hx.get", 0, [b], lambda: t.get(b), "ValidationError", state, kw=(t.get, [b]))
                 elif which == 1:
-                    bad("hx.exists", 0, [b], lambda: t.exists(b), "ValidationError", state)
+                    bad("hx.exists", 0, [b], lambda: t.exists(b), "ValidationError", state, kw=(t.exists, [b]))
                 elif which == 2:
                     bad("hx.contains", 0, [b], lambda: b in t, "ValidationError", state)
                 elif which == 3:
-                    bad("hx.set", 0, [b, b"v"], lambda: t.set(b, b"v"), "ValidationError", state)
+                    bad("hx.set", 0, [b, b"v"], lambda: t.set(b, b"v"), "ValidationError", state, kw=(t.set, [b, b"v"]))
                 elif which == 4:
-                    bad("hx.set", 0, [k, b], lambda: t.set(k, b), "ValidationError", state)
+                    bad("hx.set", 0, [k, b], lambda: t.set(k, b), "ValidationError", state, kw=(t.set, [k, b]))
                 elif which == 5:
                     bad("hx.setitem", 0, [k, b], lambda: t.__setitem__(k, b), "ValidationError", state)
                 elif which == 6:
-                    bad("hx.delete", 0, [b], lambda: t.delete(b), "ValidationError", state)
+                    bad("hx.delete", 0, [b], lambda: t.delete(b), "ValidationError", state, kw=(t.delete, [b]))
                 elif which == 7:
-                    bad("hx.get_proof", 0, [b], lambda: t.get_proof(b), "ValidationError", state)
+                    bad("hx.get_proof", 0, [b], lambda: t.get_proof(b), "ValidationError", state, kw=(t.get_proof, [b]))
                 elif which == 8:
                     tg2, nb = rng.choice(BAD_NIBBLES_TYPE)
                     bad("hx.traverse", 0, [nb], lambda: t.traverse(nb), "TypeError", state)
@@ -203,23 +226,23 @@ def run_case(case):
                 tg, b = rng.choice(BAD_BYTES)
                 which = rng.randrange(10)
                 if which == 0:
-                    bad("bin.get", 0, [b], lambda: t.get(b), "ValidationError", state)
+                    bad("bin.get", 0, [b], lambda: t.get(b), "ValidationError", state, kw=(t.get, [b]))
                 elif which == 1:
-                    bad("bin.set", 0, [b, b"v"], lambda: t.set(b, b"v"), "ValidationError", state)
+                    bad("bin.set", 0, [b, b"v"], lambda: t.set(b, b"v"), "ValidationError", state, kw=(t.set, [b, b"v"]))
                 elif which == 2:
-                    bad("bin.set", 0, [k, b], lambda: t.set(k, b), "ValidationError", state)
+                    bad("bin.set", 0, [k, b], lambda: t.set(k, b), "ValidationError", state, kw=(t.set, [k, b]))
                 elif which == 3:
-                    bad("bin.exists", 0, [b], lambda: t.exists(b), "ValidationError", state)
+                    bad("bin.exists", 0, [b], lambda: t.exists(b), "ValidationError", state, kw=(t.exists, [b]))
                 elif which == 4:
-                    bad("bin.delete", 0, [b], lambda: t.delete(b), "ValidationError", state)
+                    bad("bin.delete", 0, [b], lambda: t.delete(b), "ValidationError", state, kw=(t.delete, [b]))
                 elif which == 5:
-                    bad("bin.delete_subtrie", 0, [b], lambda: t.delete_subtrie(b), "ValidationError", state)
+                    bad("bin.delete_subtrie", 0, [b], lambda: t.delete_subtrie(b), "ValidationError", state, kw=(t.delete_subtrie, [b]))
                 elif which == 6:
-                    bad("br.exist", 0, [b], lambda: check_if_branch_exist(db, t.root_hash, b), "ValidationError", state)
+                    bad("br.exist", 0, [b], lambda: check_if_branch_exist(db, t.root_hash, b), "ValidationError", state, kw=(check_if_branch_exist, [db, t.root_hash, b]))
                 elif which == 7:
-                    bad("br.get_branch", 0, [b], lambda: get_branch(db, t.root_hash, b), "ValidationError", state)
+                    bad("br.get_branch", 0, [b], lambda: get_branch(db, t.root_hash, b), "ValidationError", state, kw=(get_branch, [db, t.root_hash, b]))
                 elif which == 8:
-                    bad("br.witness", 0, [b], lambda: get_witness_for_key_prefix(db, t.root_hash, b), "ValidationError", state)
+                    bad("br.witness", 0, [b], lambda: get_witness_for_key_prefix(db, t.root_hash, b), "ValidationError", state, kw=(get_witness_for_key_prefix, [db, t.root_hash, b]))
                 else:
                     bad("bin.init", 0, [b], lambda: BinaryTrie(db, b), "ValidationError", state)
             if rng.random() < 0.2 and t.root_hash != BinaryTrie({}).root_hash:
@@ -263,21 +286,21 @@ def run_case(case):
                 wl = rng.choice(wrong_len)
                 which = rng.randrange(14)
                 if which == 0:
-                    bad("smt.get", ks, [b], lambda: t.get(b), "ValidationError", state)
+                    bad("smt.get", ks, [b], lambda: t.get(b), "ValidationError", state, kw=(t.get, [b]))
                 elif which == 1:
-                    bad("smt.get", ks, [wl], lambda: t.get(wl), "ValidationError", state)
+                    bad("smt.get", ks, [wl], lambda: t.get(wl), "ValidationError", state, kw=(t.get, [wl]))
                 elif which == 2:
-                    bad("smt.set", ks, [b, b"v"], lambda: t.set(b, b"v"), "ValidationError", state)
+                    bad("smt.set", ks, [b, b"v"], lambda: t.set(b, b"v"), "ValidationError", state, kw=(t.set, [b, b"v"]))
                 elif which == 3:
-                    bad("smt.set", ks, [wl, b"v"], lambda: t.set(wl, b"v"), "ValidationError", state)
+                    bad("smt.set", ks, [wl, b"v"], lambda: t.set(wl, b"v"), "ValidationError", state, kw=(t.set, [wl, b"v"]))
                 elif which == 4:
-                    bad("smt.set", ks, [k, b], lambda: t.set(k, b), "ValidationError", state)
+                    bad("smt.set", ks, [k, b], lambda: t.set(k, b), "ValidationError", state, kw=(t.set, [k, b]))
                 elif which == 5:
-                    bad("smt.exists", ks, [wl], lambda: t.exists(wl), "ValidationError", state)
+                    bad("smt.exists", ks, [wl], lambda: t.exists(wl), "ValidationError", state, kw=(t.exists, [wl]))
                 elif which == 6:
-                    bad("smt.delete", ks, [b], lambda: t.delete(b), "ValidationError", state)
+                    bad("smt.delete", ks, [b], lambda: t.delete(b), "ValidationError", state, kw=(t.delete, [b]))
                 elif which == 7:
-                    bad("smt.branch", ks, [wl], lambda: t.branch(wl), "ValidationError", state)
+                    bad("smt.branch", ks, [wl], lambda: t.branch(wl), "ValidationError", state, kw=(t.branch, [wl]))
                 elif which == 8:
                     bad("smt.from_db", ks, [b], lambda: SparseMerkleTree.from_db(t.db, b, key_size=ks), "ValidationError", state)
                 elif which == 9:
@@ -286,9 +309,9 @@ def run_case(case):
                 elif which == 10:
                     br = list(t.branch(keys[0]))
                     short = br[:-1]
-                    bad("smt.calc_root", ks, [keys[0], b"v", short], lambda: calc_root(keys[0], b"v", short), "ValidationError", state)
-                    bad("smt.calc_root", ks, [b, b"v", br], lambda: calc_root(b, b"v", br), "ValidationError", state)
-                    bad("smt.calc_root", ks, [keys[0], b, br], lambda: calc_root(keys[0], b, br), "ValidationError", state)
+                    bad("smt.calc_root", ks, [keys[0], b"v", short], lambda: calc_root(keys[0], b"v", short), "ValidationError", state, kw=(calc_root, [keys[0], b"v", short]))
+                    bad("smt.calc_root", ks, [b, b"v", br], lambda: calc_root(b, b"v", br), "ValidationError", state, kw=(calc_root, [b, b"v", br]))
+                    bad("smt.calc_root", ks, [keys[0], b, br], lambda: calc_root(keys[0], b, br), "ValidationError", state, kw=(calc_root, [keys[0], b, br]))
                 elif which == 11:
                     br = list(t.branch(keys[0]))
                     bad("smt.proof_init", ks, [keys[0], b, br], lambda: SparseMerkleProof(keys[0], b, br), "ValidationError", state)
@@ -301,9 +324,9 @@ def run_case(case):
                     bad("smt.proof_init", ks, [b, b"v", brb], lambda: SparseMerkleProof(b, b"v", brb), "ValidationError", state)
                     bad("smt.proof_init", ks, [keys[0], b"v", br + br[:1]], lambda: SparseMerkleProof(keys[0], b"v", br + br[:1]), "ValidationError", state)
                 elif which == 12:
-                    bad("smt.proof_update", ks, [b], lambda: proof.update(b, b"v", ups), "ValidationError", state)
+                    bad("smt.proof_update", ks, [b], lambda: proof.update(b, b"v", ups), "ValidationError", state, kw=(proof.update, [b, b"v", ups]))
                 else:
-                    bad("smt.proof_update", ks, [wl], lambda: proof.update(wl, b"v", ups), "ValidationError", state)
+                    bad("smt.proof_update", ks, [wl], lambda: proof.update(wl, b"v", ups), "ValidationError", state, kw=(proof.update, [wl, b"v", ups]))
             if rng.random() < 0.3:
                 good("smt.get", ks, [k], lambda: t.get(k))
         if (t.root_hash, t.db) != (twin.root_hash, twin.db):
